@@ -15,6 +15,7 @@ THEOREMS = ["subslice_spec", "subslice_wf", "copy_spec", "copyArray_memmove", "a
             "append_fresh_elems",
             "clone_deep", "copy_in_place", "no_sharing", "value_semantics_partial", "cloneAt_newLocation",
             "value_semantics", "no_sharing_cloneAt", "after_repair_witnesses",
+            "ptr_identity", "ptr_eq_iff", "ptr_wf_preserved", "alias_semantics", "inplace_assignment_keeps_pointers",
             "before_repair_growslice", "before_repair_box", "before_repair_range", "before_repair_boundCall",
             "before_repair_ifaceCall"]
 
@@ -800,6 +801,69 @@ def gen_alias_probe(pid, rng, types, forced=None):
             for nm in "abc":
                 for k in range(3):
                     pr.dump(U, "%s[%d]" % (nm, k))
+    elif kind == "ptr-identity":
+        # pointer identity: &x == &x for locals, fields, array / slice elements (also through a subslice and through a
+        # pointer to the array), package variables; writes through one alias are read through the other
+        ints = [lp for lp, lt in leaves(T) if lt["k"] == "i"]
+        d = pr.ndump
+        pr.ndump += 1
+        k = [0]
+
+        def out(e):
+            B.append("println(%d, %d, %d, %s)" % (pid, d, k[0], e))
+            k[0] += 1
+        B.append("var x %s" % T["go"])
+        fill(T, "x")
+        if ints:
+            lp = rng.choice(ints)
+            B.append("p1 := &x%s" % sel(T, lp))
+            B.append("px := &x")
+            B.append("p2 := &px%s" % sel(T, lp))
+            out("p1 == p2")
+            B.append("*p2 = 611")
+            out("*p1")
+            out("x%s" % sel(T, lp))
+            other = [q for q in ints if q != lp]
+            if other:
+                B.append("p3 := &x%s" % sel(T, other[0]))
+                out("p1 == p3")
+                out("*p3")
+        n = rng.randrange(3, 7)
+        lo = rng.randrange(0, n - 1)
+        i = rng.randrange(lo, n)
+        B.append("s := make([]int, %d)" % n)
+        B.append("for i := range s { s[i] = i + 1 }")
+        B.append("t := s[%d:]" % lo)
+        B.append("q1 := &s[%d]" % i)
+        B.append("q2 := &t[%d]" % (i - lo))
+        out("q1 == q2")
+        B.append("*q2 = 622")
+        out("*q1")
+        out("s[%d]" % i)
+        B.append("q3 := &t[%d]" % ((i - lo + 1) % (n - lo)))
+        out("q1 == q3")
+        B.append("a := [4]int{1, 2, 3, 4}")
+        B.append("pa := &a")
+        B.append("r1 := &a[%d]" % (i % 4))
+        B.append("r2 := &pa[%d]" % (i % 4))
+        B.append("r3 := &a[:][%d]" % (i % 4))
+        out("r1 == r2")
+        out("r1 == r3")
+        B.append("*r3 = 633")
+        out("*r1")
+        out("a[%d]" % (i % 4))
+        pr.top.append("var gi%d int\nfunc addr%d() *int { return &gi%d }" % (pid, pid, pid))
+        B.append("g1 := &gi%d" % pid)
+        out("g1 == addr%d()" % pid)
+        B.append("*addr%d() = 644" % pid)
+        out("*g1")
+        out("gi%d" % pid)
+        B.append("l := 5")
+        B.append("l1 := &l")
+        B.append("l2 := func() *int { return &l }()")
+        out("l1 == l2")
+        B.append("*l2 = 655")
+        out("l")
     elif kind == "shared-ref-leaf":
         # a copied struct shares what its pointer / slice / map fields refer to
         B.append("var x %s" % T["go"])
@@ -825,7 +889,7 @@ def gen_alias_probe(pid, rng, types, forced=None):
     return pr
 
 
-ALIASES = ["ptr-field", "ptr-global", "closure", "slice-elem-ptr", "append-value", "copy-elems", "slice-of-array", "shared-ref-leaf"]
+ALIASES = ["ptr-field", "ptr-global", "ptr-identity", "closure", "slice-elem-ptr", "append-value", "copy-elems", "slice-of-array", "shared-ref-leaf"]
 
 
 # ---- slice programs over []int with the Lean slice model as predictor ------------------------------------------------
@@ -1132,6 +1196,16 @@ def run(tier, seed):
     cops = gen_clone_ops(tier, chk.rng)
     chk.compare("prelude-clone", cops, C.run_node(cops), C.run_driver("C07", cops),
                 kind=lambda o, a: "clone:cells=%s" % min(64, 1 << (int(a.split()[0][2:]).bit_length())))
+    # $indexPtr: element pointers keep identity (per array / per ArrayBuffer cache) and alias the element
+    pops = []
+    for k in "tp":
+        for n in (1, 3, 5):
+            for off in range(n):
+                for i in range(n):
+                    for j in range(n - off):
+                        pops.append("ptr index %s %d %d %d %d %d" % (k, n, off, i, j, chk.rng.randrange(100, 999)))
+    chk.compare("prelude-indexptr", pops, C.run_node(pops), C.run_driver("C07", pops),
+                kind=lambda o, a: "indexptr:%s:%s" % (o.split()[2], a.split()[0]))
     # (c) clone emission sites
     sites_ok = clone_sites_tie(chk)
     # (b) programs
